@@ -6,6 +6,70 @@ ROOT = "/verif"
 
 # id -> dict(engine, category, text, note, technique, design_ref)
 CHECKS = {
+    "C02": dict(
+        engine="e2e",
+        category="fault_enumeration",
+        technique="property-based fault injection: proptest-generated fault schedules, workloads and transport parameters run on the real dquic client+server over an in-memory network under tokio virtual time; oracle = data prefix-equality, no panic, no send storm, completion / no-hang by profile",
+        text="Each case runs the unmodified client and server stacks end to end (TLS handshake, packet protection, loss recovery) over simnet with a generated schedule of drop / delay / duplicate / replay / bit-flip / truncate faults per datagram index, pseudo-random loss, or a black hole, with generated flow-control/stream-count/idle parameters and 0-5 uni/bidi streams opened by either side. Safety clauses are asserted on every case; completion only where faults are strictly bounded (<=6 loss-equivalent datagrams); no-hang where a sound virtual-time bound exists. 320 cases quick, 40 000 thorough; failures shrink to a minimal schedule/workload.",
+        note="One current-thread runtime per case with paused clock (FIFO wake order): multi-thread interleavings are not explored. Ciphertext is not reproducible (library RNG) and never enters the oracle. 'Tampered packets are never accepted' is decided behaviourally (a tampered datagram must not break a connection that survives the same schedule with drops instead) plus C06 at packet level. Perpetual-loss profiles assert safety only.",
+        design_ref="DESIGN.md §2.1, §3 C02",
+    ),
+    "C05": dict(
+        engine="comp",
+        category="exploration",
+        technique="round-trip + reference-encoder property testing (proptest) with exhaustive enumeration over frame kind x flag combination x varint width class",
+        text="All 26 frame kinds, all header kinds, varints, CIDs, addresses, stream ids, reset tokens and role-valid transport-parameter sets: encode, compare bytes with an independent reference encoder, compare written size with encoding_size() <= max_encoding_size(), decode in all packet types (equal value / exact consumption / WrongType), concatenation metamorphic, and Package::dump into hard-capacity buffers of every size around the declared one. Exhaustive over kind x flags x width class (19k quick / 1.1M thorough) plus 490k / 24M random values.",
+        note="Only values the constructors can build are generated (others belong to C03/C04). Reference encoder and packet-type table are hand-written from RFC 9000/9221 and trusted. libFuzzer structured target not built (proptest only).",
+        design_ref="DESIGN.md §3 C05",
+    ),
+    "C06": dict(
+        engine="comp",
+        category="exploration",
+        technique="property testing with real rustls/ring keys: protect/unprotect round trip, exhaustive single-bit tamper sweeps, wrong-pn/wrong-key/cross-generation variants, key-update histories against an RFC 9001 model",
+        text="Packets are assembled with the stack's PacketWriter and protected with real Initial/Handshake/0-RTT/1-RTT keys (3 cipher suites, key updates), then received through PacketReader -> CipherPacket::decrypt_* exactly as the routing component does. Round trip must be bit-exact; every single-bit corruption (exhaustive for packets <=200 B), wrong packet number, wrong key, truncation or cross-generation variant must be discarded (None) and leave the receiver able to decrypt the original. 291k cases quick, 7.2M thorough; exhaustive small grid over type x cid length x pn width x body size.",
+        note="AEAD and header-protection primitives (rustls/ring) are trusted. TLS handshake randomness is not seedable: verdicts never depend on key values.",
+        design_ref="DESIGN.md §3 C06",
+    ),
+    "C07": dict(
+        engine="comp",
+        category="exploration",
+        technique="model-based history testing of the sent-packet journal + differential testing of packet-number decoding against an RFC 9000 A.3 reference, with an exhaustive sub-grid",
+        text="(a) Histories of started / completed / abandoned packet assemblies, acks, losses and ticks on the real ArcSentJournal (plus real threads sharing one journal): emitted packet numbers must be strictly increasing and never reused. (b) encode -> wire -> decode for all receiver positions between largest-acked+1 and the packet, exhaustively for pn-la <= 2^11 (quick) / 2^17 (thorough) on four bases incl. the top of the number space, 200k/60M random triples, and a differential of PacketNumber::decode against a reference A.3 decoder on arbitrary truncated inputs.",
+        note="qconnection::tx::PacketWriter is not linked; its call sequences on the journal guard are reproduced from source. Reference decoder is hand-written from RFC 9000 A.3.",
+        design_ref="DESIGN.md §3 C07",
+    ),
+    "C10": dict(
+        engine="comp",
+        category="exploration",
+        technique="model-based property testing of both journals under a paused clock, with complete enumeration of small histories",
+        text="rx: every subset/order of small packet-number sets, every tracked largest and every capacity 0..24 exhaustively, plus long random histories: generated ACK frames must list only received numbers, be the maximal prefix-from-the-top that fits, fit the capacity, and a number is accepted at most once; records may only be dropped after confirmation. tx: every op sequence up to length 6/7 and random histories through line-for-line copies of the connection's ACK/loss glue: frames reported acked/lost are exactly those recorded in that packet, once each, never a neighbour's.",
+        note="The Ack*Space::recv_frame glue of qconnection is mirrored in the harness (the real glue runs in the C02 simnet). ACK frames on the tx side acknowledge only packets really sent (hostile ACKs are C04).",
+        design_ref="DESIGN.md §3 C10",
+    ),
+    "C13": dict(
+        engine="comp",
+        category="exploration",
+        technique="model-based history testing of ArcCC against an executable RFC 9002 reference model (paused clock, state snapshot hook), with exhaustive short histories",
+        text="Histories of sends (three spaces, sizes, ack-eliciting/in-flight flags), ACK frames (ranges, delays, ECN), clock advances and ticks drive the real ArcCC through its Transport trait; after every op a hook snapshot (cwnd, bytes_in_flight, recovery start, pto_count, timers, outstanding packets) is compared with what RFC 9002 permits: loss only with a larger acked number and packet/time threshold, acked never lost, in-flight packets always covered by a timer, PTO doubling and abandonment, cwnd >= 2 datagrams, at most one reduction per round trip, growth only outside recovery, bytes_in_flight accounting, quota vs window. All words <=5 (quick) / 7 (thorough) over an 8-letter alphabet exhaustively, 66k / 2.1M random histories.",
+        note="'Eventually' is checked only in bounded form. The implementation may be more conservative than RFC 9002, never less. Seven confirmed divergences are listed as known findings with narrow signatures; everything else is still asserted behind them.",
+        design_ref="DESIGN.md §3 C13",
+    ),
+    "C14": dict(
+        engine="comp",
+        category="exploration",
+        technique="model-based property testing of local/remote connection-ID tables over a real QuicRouter, with complete enumeration of short remote histories",
+        text="Local: 1-5 connections sharing one real router, retire frames in any order (duplicate, unissued), limit changes, handle and connection drops; after every op every ID ever issued is routed with a real parsed packet and must reach exactly its own live connection or nothing. Remote: NEW_CONNECTION_ID frames (reordered, duplicated, any retire_prior_to) interleaved with up to 6 paths borrowing/releasing IDs: one ID per path, no sharing, retire-prior-to honoured, exactly one RETIRE per abandoned ID, limit enforced. All 18-op-alphabet sequences of depth 4 (quick) / 5 (thorough) + 520k / 7M random histories.",
+        note="Sequence numbers bounded to a small range (unbounded-value cost is C04). Which free ID goes to which path is not predicted, only invariants are asserted.",
+        design_ref="DESIGN.md §3 C14",
+    ),
+    "C18": dict(
+        engine="comp",
+        category="exploration",
+        technique="property testing of transport-parameter parsing/validation against an RFC 9000 section 7.3/7.4/18.2 reference decoder, exhaustive over single-clause violations x role x arrival order",
+        text="Wire blobs are built from a generated description (each id present/absent/duplicated, values at and one beyond each bound, role-inappropriate, unknown and grease ids, malformed bodies, CID values equal/differing/other length); parse_from_bytes must return a TransportParameter error iff a clause of the reference is violated and never panic; ArcParameters must become ready iff both the first packet and the TLS extension were processed and the declared CIDs equal the observed ones (both arrival orders, both roles); negotiated idle timeout and 0-RTT acceptance are compared with the model. 7.3k single-deviation cases exhaustively + 930k random (quick) / 16.6M (thorough).",
+        note="Component level only; the handshake-level verdict is exercised by the C02 simnet runs with valid parameters. Duplicate parameters and max_udp_payload_size > 65527 are tolerated either way (RFC leaves it open).",
+        design_ref="DESIGN.md §3 C18",
+    ),
     "C08": dict(
         engine="comp",
         category="exploration",
